@@ -7,7 +7,8 @@
    ends - stop, replacement by a new resolve of the same name, or deadline - everything ends
    with it; in particular no question is asked at or after the deadline.
    (The code keeps two tables, `hostname_resolvers` and `retransmissions`, see HostresModel.v;
-   Proofs/HostresRefine.v shows that they stay in step except in the situation `late_at`.)
+   Proofs/HostresRefine.v shows that they stay in step on every well-formed history; `late_at`
+   below names the situation in which they did not before the repair a4675d4.)
 
    The address cache is the part of the specification that follows RFC 6762 as the crate
    implements it (TTL, goodbye = 1 s, cache-flush = 1 s, one refresh at 80 %): the cache
@@ -144,7 +145,7 @@ Fixpoint sp_run_from (s : sst) (h : list iter) : list out :=
   end.
 Definition sp_run (h : list iter) : list out := sp_run_from sst0 h.
 
-(* ---- the situation in which the code and the property text part ways --------------------- *)
+(* ---- the situation in which the code and the property text parted ways before a4675d4 ---- *)
 (* an iteration is late for a search when its deadline has come while its next query is still
    pending (the query time is before the deadline, so the daemon did not run in between) *)
 Definition sk_late (now : N) (k : search) : bool :=
